@@ -101,8 +101,11 @@ THEOREMS = [
     "Nix.C12.multi_tag_extents_accepted",
     "Nix.C12.flattened_extents_counterexample",
     "Nix.C12.create_link_file_test_counterexample",
-    "Nix.C12.dimension_link_object_refused_unchanged_partial",
-    "Nix.C12.dimension_link_object_refused_unchanged_counterexample",
+    "Nix.C12.dimension_link_functions_safe",
+    "Nix.C12.dimension_link_object_refused_unchanged",
+    "Nix.C12.dimension_link_object_accepted",
+    "Nix.C12.dimension_link_object_before_fix_counterexample",
+    "Nix.C12.link_file_test_counterexample",
     "Nix.C12.attr_sound",
     "Nix.C12.attr_setters_safe",
     "Nix.C12.attr_setter_refused_unchanged",
@@ -239,9 +242,12 @@ MANIFEST = {
                   "that a passed guard establishes others (membership in the block => same file); "
                   "flattened_extents_counterexample / create_link_file_test_counterexample prove the orders of seeded "
                   "change C12-7 and of nixio before 16b3ce3 wrong; the object handed to Dimension.link_data_array / "
-                  "link_data_frame is modelled as it is (open finding: an object of another file is refused after the link "
-                  "group was rebuilt - dimension_link_object_refused_unchanged kept as a Prop with _partial and "
-                  "_counterexample). "
+                  "link_data_frame is rendered too (the same-file test of the two functions, then create_link inlined): "
+                  "dimension_link_functions_safe + dimension_link_object_refused_unchanged - whatever object of whatever "
+                  "file a dimension is asked to link, a refusal leaves the previous link in place and builds no link "
+                  "group (the repaired finding C12-dimension-link-object-of-another-file; "
+                  "dimension_link_object_before_fix_counterexample / link_file_test_counterexample prove the order "
+                  "before the repair wrong). "
                   "(5c) single-valued attributes (Pure/AttrWrite.lean on Generated/AttrOrder.lean: the 21 setters that end in "
                   "set_attr, found in the source, set_attr inlined, one list for None and one for a value): attr_sound + "
                   "attr_setters_safe + attr_setter_refused_unchanged - every setter, every value, attribute present or "
@@ -277,8 +283,8 @@ MANIFEST = {
                   "the link) and File-level deletes have no C12 theorem: they are checked by the oracle (catalogue + spelling "
                   "sweep) on the implementation only. Tag.units / MultiTag.units / SetDimension.labels: only their common "
                   "write_data call with a text dtype has a theorem (write_data_text_refused_unchanged), their own validation "
-                  "loops are not modelled; the copy model stops at the destination container (the copied subtree is one item); ticks_refused_unchanged assumes that a linked dimension holds no ticks dataset. Open finding (modelled as it is, counterexample proved): an object of another file handed to "
-                  "Dimension.link_data_array / link_data_frame is refused after the link group was rebuilt. create_multi_tag with positions/extents given as data has its own full theorem "
+                  "loops are not modelled; the copy model stops at the destination container (the copied subtree is one item); ticks_refused_unchanged assumes that a linked dimension holds no ticks dataset. In DataArray.append_range_dimension_using_self the object linked is the array itself "
+                  "(step createSelfLink: no same-file question arises). create_multi_tag with positions/extents given as data has its own full theorem "
                   "(multi_tag_refused_unchanged, under C03's invariant WF and the assumption that '<name>-positions' / "
                   "'<name>-extents' are not ids of the supply). name_still_available is proved for "
                   "create_group/source/data_array/tag (not for multi tags).",
@@ -947,6 +953,8 @@ def correspondence(ctx):
                 ldist["refused" if i["refused"] else "accepted"] += 1
                 k = "%s/%s" % (c["fn"], c.get("container", "column"))
                 ldist[k] = ldist.get(k, 0) + 1
+                if c.get("other_file"):
+                    ldist["object of another file"] = ldist.get("object of another file", 0) + 1
                 seen.add(core.canon(["link", c]))
                 if LNK.canon_model(m, c) != LNK.canon_impl(i):
                     disagreements.append(Disagreement({"link_case": c}, LNK.canon_model(m, c),
@@ -1550,7 +1558,8 @@ def _catalogue():
         setup=lambda c: (has_units(c), c["rd"].link_data_frame(c["df"], 0)))
     add("SetDimension(linked to frame column).link_data_frame:units kept", lambda c: c["sl"].link_data_frame(c["df"], 7),
         setup=has_units)
-    # open finding: a dimension is linked to an object of another file (refused by HDF5 after the link group was built)
+    # repaired finding C12-dimension-link-object-of-another-file: a dimension asked to link an object of another file
+    # refused it (create_link, ValueError) after the previous link was removed and the new link group built
     add("Dimension.link:object-of-another-file:linked-range-array", lambda c: c["rl"].link_data_array(c["ofd"], [-1]),
         lambda c: c["rl"].link_data_array(c["dx"], [-1]))
     add("Dimension.link:object-of-another-file:ticks-range-array", lambda c: c["rd"].link_data_array(c["ofd"], [-1]),
@@ -2177,19 +2186,10 @@ def matches_known(entry, failure):
     cls = entry.get("class")
     if not cls or not isinstance(failure.site, str):
         return False
-    if cls == "Dimension.link:object-of-another-file":
-        # catalogue cases of that label, or the sweep's: a dimension-linking call offered an entity of the second file
-        inp = failure.input if isinstance(failure.input, dict) else {}
-        case = inp.get("case") if isinstance(inp.get("case"), dict) else {}
-        return failure.site.startswith(cls + ":") or (
-            inp.get("kind") == "sweep" and ".link_data_" in str(inp.get("target")) and
-            str(inp.get("spelling")) in ("entity:ofd", "entity:off")) or (
-            inp.get("kind") == "case" and inp.get("which") == "role_case" and
-            str(case.get("setter")).startswith("Dimension.link_data_") and case.get("value") in ("ofd", "off"))
     return failure.site == cls
 
 
-OPEN_CLASSES = ("Dimension.link:object-of-another-file",)
+OPEN_CLASSES = ()       # classes of open findings whose catalogue labels carry a suffix (none at present)
 
 
 def reproduces(ctx, entry):
